@@ -72,7 +72,7 @@ impl Area for HistArea {
             for b in &bounds { if !b.is_nan() { cand.push(next_up(*b)); cand.push(next_down(*b)); cand.push(*b); cand.push(*b); } }
             let n = rng.range(0, if thorough { 40 } else { 12 });
             let obs: Vec<f64> = (0..n).map(|_| *rng.pick(&cand)).collect();
-            let via = *rng.pick(&["direct", "vec", "local"]);
+            let via = *rng.pick(&["direct", "vec", "local", "local2"]);   // local2: one local histogram used for two batches (observe, flush, observe, flush)
             vec![format!("hist run {} {} via={}", f64_list(&bounds), f64_list(&obs), via)]
         } else if k < 90 {
             let p = pool();
@@ -117,6 +117,12 @@ impl Area for HistArea {
                                 let l = h.local();
                                 for v in &obs { l.observe(*v); }
                                 l.flush();
+                            } else if via == "local2" {
+                                let l = h.local(); let k = obs.len() / 2;
+                                for v in &obs[..k] { l.observe(*v); }
+                                l.flush();
+                                for v in &obs[k..] { l.observe(*v); }
+                                l.flush();
                             } else { for v in &obs { h.observe(*v); } }
                             let (count, sum, cum, ub) = snapshot(&h);
                             let on_bound = obs.iter().any(|v| want_bounds.iter().any(|b| v == b) || !v.is_finite());
@@ -131,7 +137,7 @@ impl Area for HistArea {
                                     if cum.get(i) != Some(&want) { fails.push(Failure { class: "cumulative-mismatch".into(), detail: format!("bucket {} (le {}) reports {:?}, {} observations are <= bound; {}", i, b, cum.get(i), want, line) }); }
                                 }
                                 if count != obs.len() as u64 { fails.push(Failure { class: "count-mismatch".into(), detail: format!("sample_count {} != {} observations", count, obs.len()) }); }
-                                let want_sum = obs.iter().fold(0.0f64, |a, v| a + *v);
+                                let want_sum = if via == "local2" { let k = obs.len() / 2; obs[..k].iter().fold(0.0f64, |a, v| a + *v) + obs[k..].iter().fold(0.0f64, |a, v| a + *v) } else { obs.iter().fold(0.0f64, |a, v| a + *v) };
                                 if !(sum.to_bits() == want_sum.to_bits() || (sum.is_nan() && want_sum.is_nan())) { fails.push(Failure { class: "sum-mismatch".into(), detail: format!("sample_sum {} != in-order sum {}", sum, want_sum) }); }
                                 if h.get_sample_count() != count { fails.push(Failure { class: "get_sample_count-mismatch".into(), detail: format!("{} vs {}", h.get_sample_count(), count) }); }
                             }
